@@ -241,6 +241,30 @@ func init() {
 					o2 = o
 					o2.transpose = !o.transpose
 					rows2 = transposeRows(rows)
+					if r.Intn(2) == 0 {
+						// the other layout as a reader that drops trailing blank cells hands it over (ragged lines)
+						maxc := 0
+						for _, x := range rows2 {
+							if len(x) > maxc {
+								maxc = len(x)
+							}
+						}
+						trimmed := make([][]string, len(rows2))
+						keep := 0
+						for x := range rows2 {
+							t := rows2[x]
+							for len(t) > 0 && t[len(t)-1] == "" {
+								t = t[:len(t)-1]
+							}
+							trimmed[x] = t
+							if len(t) > keep {
+								keep = len(t)
+							}
+						}
+						if keep == maxc {
+							rows2 = trimmed
+						}
+					}
 				case "pad":
 					rows2 = make([][]string, len(rows))
 					k := r.Intn(4) // 0..3 trailing blank columns (2+ used to fail with E0003)
